@@ -11,7 +11,7 @@ SERIAL = ("Tie: random projects and histories (DSL scripts rendered as sh) are e
 PARTIAL = (" PARTIAL proof: the theorems are the local decision rules / one-step facts of the executable model Build/Model.v, proved for every state; the statement over whole histories is recorded as <id>_full_statement and is not proved in Coq -- over histories the property is decided by the correspondence + oracles.")
 
 CHECKS = {
- "C01": dict(text="Proof (Coq, partial): dirtiness decision rules of the serial model (never built / failed / newer dependency => dirty) for every database and file-system state; witness history of finding F1 evaluated on the fixed model. " + SERIAL + PARTIAL,
+ "C01": dict(text="Proof (Coq, partial): dirtiness decision rules of the serial model (never built / failed / newer dependency => dirty) for every database and file-system state; over the whole dependency walk, a recorded dependency that failed, was never built or changed later than the target was last built/verified makes the target not clean wherever it stands in the list (C01_moved_on_dep_not_clean); witness history of finding F1 evaluated on the fixed model. " + SERIAL + PARTIAL,
     note=TB + " Assumptions A-STAMP, A-QUIESCENT; scripts restricted to the DSL; flat project directory.",
     technique="Coq proof of local decision rules on an executable model + model/implementation differential check over histories + from-scratch oracle", ref="5/C01"),
  "C02": dict(text="Proof (Coq, partial): never-built and failed targets run; checking dirtiness has no file effect; example: repeated build runs nothing, dropped dependency no longer triggers (vm_compute on the model). " + SERIAL + PARTIAL,
@@ -52,7 +52,7 @@ CHECKS = {
     note=TB + " Existence tests and sh argument passing are the OS's.",
     technique="Coq proof (iterator = declarative spec) + model/implementation differential check",
     ref="5/C13"),
- "C14": dict(text="Proof (Coq, partial): redo-ifcreate of an existing path is an error and records nothing, of absent paths succeeds without touching files; //ALWAYS is always newer than any earlier run, and a newer dependency makes its consumer dirty; example: always runs once per run for two dependents, ifcreate target runs after the watched file appears and not before. " + SERIAL + PARTIAL,
+ "C14": dict(text="Proof (Coq, partial): over the whole dependency walk a target with a recorded redo-ifcreate edge to a path that exists now, or an edge to //ALWAYS, is never found clean by a run that has not dealt with it (C14_ifcreate_or_always_not_clean); redo-ifcreate of an existing path is an error and records nothing, of absent paths succeeds without touching files; //ALWAYS is always newer than any earlier run, and a newer dependency makes its consumer dirty; example: always runs once per run for two dependents, ifcreate target runs after the watched file appears and not before. " + SERIAL + PARTIAL,
     note=TB + " -j>1 clause rests on C07/C09.",
     technique="Coq proof of ifcreate/always rules + model/implementation differential check over create/delete histories", ref="5/C14"),
  "C15": dict(
@@ -66,7 +66,7 @@ CHECKS = {
  "C17": dict(text="Proof (Coq): the three query commands change nothing but the run-id counter (files, rows, dependency records identical); targets and sources are disjoint; what is in neither list is a special name or a file missing on disk; the ood walk touches no file. The two bounds on redo-ood are decided against the implementation. " + SERIAL,
     note=TB + " redo-ood's rolled-back write is modelled as discarded.",
     technique="Coq proof of read-only/partition facts + model/implementation differential check with query commands at every point", ref="5/C17"),
- "C18": dict(text="Proof (Coq): (a) format/parse round trip for every well-formed record (text may contain '@@ ' or '@@REDO:'), soundness of parse, done-record round trip. Tie: exhaustive small strings + random + malformed stream, model vs redo::logs::Meta. Part (b) is decided on the implementation: numbered stderr lines (long, trailing blanks, unterminated, one line delivered in 3-5 fragments) at -j1..4 must appear once, in order, under their own target in the live output and in redo-log -r; catlog is not modelled in Coq (PARTIAL); finding F11 is known.",
+ "C18": dict(text="Proof (Coq): (a) format/parse round trip for every well-formed record (text may contain '@@ ' or '@@REDO:'), soundness of parse, done-record round trip. Tie: exhaustive small strings + random + malformed stream, model vs redo::logs::Meta. Part (b): the follower's partial-line buffer is modelled (LogRec/Assemble.v) and proved to lose/duplicate nothing and to emit the same lines for every fragmentation of the log's bytes (C18_fragmentation_independent); the rest of (b) is decided on the implementation: numbered stderr lines (long, trailing blanks, unterminated, one line delivered in 3-5 fragments) at -j1..4 must appear once, in order, under their own target in the live output and in redo-log -r; catlog is not modelled in Coq (PARTIAL); finding F11 is known.",
     note=TB + " f64 timestamps modelled as integers in 1e-4 s; signs/exponents/inf/nan in timestamps are outside the model.",
     technique="Coq proof (round trip) + exhaustive model/implementation differential check", ref="5/C18"),
 }
